@@ -69,6 +69,7 @@ type GenCfg struct {
 	Reopen      bool // re-open 4-tuples (C11)
 	BackJumps   bool // timestamps may jump backwards (C11)
 	ForceLimits bool
+	Short       bool // bias stream lengths down (many-connection lifecycle runs)
 }
 
 // Plan is a generated run.
@@ -168,7 +169,11 @@ func Generate(c *sim.Ctx, cfg GenCfg) *Plan {
 				d.Net = gopacket.NewFlow(layers.EndpointIPv4, src, dst)
 				d.Src, d.Dst = sp, dp
 				n := 0
-				switch c.Weighted(3, 3, 3, 2, 1) {
+				lw := []int{3, 3, 3, 2, 1}
+				if cfg.Short {
+					lw = []int{6, 4, 2, 1, 2}
+				}
+				switch c.Weighted(lw...) {
 				case 0:
 					n = 1 + c.Draw(24)
 				case 1:
